@@ -177,6 +177,7 @@ func runC04(c *Ctx) {
 	checkRealmDiscipline(r, p)
 	// ---- (c) copy discipline
 	checkCopyDiscipline(r, p)
+	checkKVStoreTrustedHelpers(r, p)
 	// ---- (d) ordering
 	checkIterationOrder(r, p)
 	// ---- (e) batch
@@ -205,6 +206,24 @@ func runC04(c *Ctx) {
 	checkErrChecked(r, p, "err/checked", errScope{Pkg: "kvstore/flushkv", Funcs: p.AllFuncDecls("kvstore/flushkv")})
 	checkErrChecked(r, p, "err/checked", errScope{Pkg: "kvstore/debug", Funcs: p.AllFuncDecls("kvstore/debug")})
 	checkErrChecked(r, p, "err/checked", errScope{Pkg: mp, Funcs: p.AllFuncDecls(mp)})
+}
+
+// checkFlushingWrapper: the rules of the write-through wrapper on their own - every view it hands out
+// is again a flushing wrapper of the inner VIEW, every mutator flushes on its success path. Properties
+// that rely on "Set returned nil => the value is durable" on such a store (the Sequence's reservation)
+// take these as obligations of their own.
+func checkFlushingWrapper(r *Reporter, p *Prog) {
+	skipView := map[string]string{"WithRealm": "wraps the inner view (own rule)", "WithExtendedRealm": "goes through own WithRealm (own rule)", "Batched": "wraps the inner batch (own rule)"}
+	checkForwarding(r, p, "fwd/delegates", fwdOpts{Pkg: "kvstore/flushkv", Type: "flushKVStore", Field: "store", Skip: skipView, MinMethods: 14})
+	checkWrapsInner(r, p, "kvstore/flushkv", "flushKVStore", "WithRealm", "store", "flushKVStore", "store")
+	checkWrapsInner(r, p, "kvstore/flushkv", "flushKVStore", "Batched", "store", "batchedMutations", "batched")
+	checkExtendedRealm(r, p, "kvstore/flushkv", "flushKVStore")
+	for _, m := range []struct{ typ, m, field string }{
+		{"flushKVStore", "Set", "store"}, {"flushKVStore", "Delete", "store"}, {"flushKVStore", "DeletePrefix", "store"}, {"flushKVStore", "Clear", "store"},
+		{"batchedMutations", "Commit", "batched"},
+	} {
+		checkFlushAfter(r, p, "kvstore/flushkv", m.typ, m.m, m.field)
+	}
 }
 
 func isRecvIdent(info *types.Info, fd *ast.FuncDecl, e ast.Expr) bool {
@@ -475,6 +494,15 @@ func checkRealmDiscipline(r *Reporter, p *Prog) {
 }
 
 var copyFuncs = map[string]bool{"byteutils.ConcatBytes": true, "bytes.Clone": true, "utils.CopyBytes": true, "slices.Clone": true, "byteutils.ConcatBytesToString": true, "string": true, "len": true}
+
+// checkKVStoreTrustedHelpers: the helpers the copy discipline and the iteration rule trust by name.
+func checkKVStoreTrustedHelpers(r *Reporter, p *Prog) {
+	checkTrustedHelpers(r, p, []trustedHelper{
+		{Pkg: "serializer/byteutils", Name: "ConcatBytes"},
+		{Pkg: "kvstore/utils", Name: "CopyBytes"},
+		{Pkg: "kvstore/utils", Name: "SortSlice", ArgOK: true},
+	})
+}
 
 // sharedMapStoreOps: the methods of syncedKVMap that store one of their parameters (or a copy of it)
 // into the shared map under a key built from another parameter - found by what they do, not by name.
@@ -1336,6 +1364,28 @@ func checkWrapsInner(r *Reporter, p *Prog, pkg, typ, m, field, wrapType, wrapFie
 		}
 		return true
 	})
+	// ... or the one-line constructor of the wrapper handed the inner view (`New(store)` with body
+	// `return &T{field: param}`)
+	if !ok {
+		ast.Inspect(fd.Body, func(n ast.Node) bool {
+			c, isCall := n.(*ast.CallExpr)
+			if !isCall || ok {
+				return !ok
+			}
+			cl, _, bind := constructorLiteral(p, info, c)
+			if cl == nil || shortTypeName(typeName(info.TypeOf(cl))) != wrapType {
+				return true
+			}
+			for _, el := range cl.Elts {
+				if kv, isKV := el.(*ast.KeyValueExpr); isKV && exprKey(kv.Key) == wrapField {
+					if po := objOfIdent(info, kv.Value); po != nil && bind[po] != nil && resVar != nil && objOfIdent(info, bind[po]) == resVar {
+						ok = true
+					}
+				}
+			}
+			return true
+		})
+	}
 	f := newFuncCFG(p, info, fd.Body, key)
 	succ, _ := f.ErrEdges(calls[0])
 	if !ok {
